@@ -174,7 +174,7 @@ fn run(ctx: &mut Ctx) {
             });
         }
     }
-    ctx.bound("header_level", format!("headers [deviating tag][neighbour][end] and [neighbour][deviating tag][end] for every tag size above and two neighbours, both architectures{}; header length word 0..=len+17 + EDGE32 (checksum recomputed, physical region as large as declared); program = load, the four words, the 10 getters with batteries, iter() walk, forwards and in reverse order", if quick { "" } else { "; all ordered triples of conformant tags with one deviating size" }));
+    ctx.bound("header_level", format!("headers [deviating tag][neighbour][end] and [neighbour][deviating tag][end] for every tag size above and two neighbours, both architectures{}; headers [neighbour][tag claiming 0..=extent+41 bytes without being extended][end or nothing]; header length word 0..=len+17 + EDGE32 (checksum recomputed, physical region as large as declared); program = load, the four words, the 10 getters with batteries, iter() walk, forwards and in reverse order", if quick { "" } else { "; all ordered triples of conformant tags with one deviating size" }));
     let neighbours = [hd::sample(hd::ADDRESS, 5, 0), hd::sample(hd::INFO_REQ, 5, 2)];
     for (kind, img) in &bases {
         let cap = img.len() + 17;
@@ -195,6 +195,33 @@ fn run(ctx: &mut Ctx) {
                             header_level(ctx, &arena, &h);
                         });
                     }
+                }
+            }
+        }
+    }
+    // a tag that is not the first and claims more than what is left of the header (not physically extended: it overlaps
+    // the end tag, or is the last thing in the header)
+    for (kind, img) in &bases {
+        let cap = img.len() + 41;
+        for size in range_edge(0, cap as u32) {
+            let mut t = img.clone();
+            wr32(&mut t, 4, size);
+            while t.len() % 8 != 0 {
+                t.push(0xF7);
+            }
+            for (ni, nb) in neighbours.iter().enumerate() {
+                for with_end in [true, false] {
+                    let mut tags = vec![nb.clone(), t.clone()];
+                    if with_end {
+                        tags.push(hd::end_tag());
+                    }
+                    let h = hd::header(0, &tags, 0xF7);
+                    let describe = || J::obj().set("part", "header-overshoot").set("kind", hd::kind_name(*kind)).set("declared_size", size).set("neighbour_in_front", ni).set("end_tag_behind", with_end).set("header", J::hex(&h));
+                    ctx.leaf(describe, |ctx| {
+                        ctx.state(hash::hash_bytes(&h));
+                        ctx.nontrivial();
+                        header_level(ctx, &arena, &h);
+                    });
                 }
             }
         }
